@@ -174,6 +174,11 @@ pub struct EncryptedKeyStorageManager {
     /// In-memory cache of decrypted keys
     key_cache: Arc<RwLock<HashMap<String, SecureMemory>>>,
     // Removed insecure password cache that bypassed password validation
+    /// Random per-manager key for `cache_password_tag`
+    cache_tag_key: [u8; 32],
+    /// Keyed BLAKE3 tag of the password under which the entries of `key_cache` were
+    /// decrypted; a cache hit is honoured only for a caller presenting that password
+    cache_password_tag: Arc<RwLock<Option<[u8; 32]>>>,
     /// Background key derivation tasks
     _background_tasks: Arc<AsyncRwLock<HashMap<String, tokio::task::JoinHandle<Result<()>>>>>,
     /// Performance statistics
@@ -329,10 +334,15 @@ impl EncryptedKeyStorageManager {
             std::fs::create_dir_all(parent).map_err(P2PError::Io)?;
         }
 
+        let mut cache_tag_key = [0u8; 32];
+        RngCore::fill_bytes(&mut thread_rng(), &mut cache_tag_key);
+
         Ok(Self {
             storage_path,
             argon2_config,
             key_cache: Arc::new(RwLock::new(HashMap::new())),
+            cache_tag_key,
+            cache_password_tag: Arc::new(RwLock::new(None)),
             _background_tasks: Arc::new(AsyncRwLock::new(HashMap::new())),
             stats: Arc::new(Mutex::new(StorageStats::default())),
             _security_level: security_level,
@@ -425,17 +435,7 @@ impl EncryptedKeyStorageManager {
             .await?;
 
         // Update cache
-        {
-            let mut cache = self.key_cache.write().map_err(|_| {
-                P2PError::Storage(StorageError::LockPoisoned(
-                    "write lock failed".to_string().into(),
-                ))
-            })?;
-            cache.insert(
-                seed_id.to_string(),
-                SecureMemory::from_slice(master_seed.seed_material())?,
-            );
-        }
+        self.cache_insert(seed_id, master_seed.seed_material(), password)?;
 
         // Update statistics
         {
@@ -460,8 +460,9 @@ impl EncryptedKeyStorageManager {
     ) -> Result<MasterSeed> {
         let start_time = Instant::now();
 
-        // Check cache first
-        {
+        // Check cache first - only for a caller presenting the password the cached entries
+        // were decrypted with; anyone else goes through the authenticated decryption below
+        if self.cache_password_matches(password)? {
             let cache = self.key_cache.read().map_err(|_| {
                 P2PError::Storage(StorageError::LockPoisoned(
                     "read lock failed".to_string().into(),
@@ -490,14 +491,7 @@ impl EncryptedKeyStorageManager {
         let master_seed = MasterSeed::from_entropy(seed_bytes)?;
 
         // Update cache
-        {
-            let mut cache = self.key_cache.write().map_err(|_| {
-                P2PError::Storage(StorageError::LockPoisoned(
-                    "write lock failed".to_string().into(),
-                ))
-            })?;
-            cache.insert(seed_id.to_string(), SecureMemory::from_slice(seed_bytes)?);
-        }
+        self.cache_insert(seed_id, seed_bytes, password)?;
 
         // Update statistics
         {
@@ -550,6 +544,9 @@ impl EncryptedKeyStorageManager {
         // Clear in-memory key cache so subsequent reads require correct password
         if let Ok(mut cache) = self.key_cache.write() {
             cache.clear();
+        }
+        if let Ok(mut tag) = self.cache_password_tag.write() {
+            *tag = None;
         }
 
         // Update statistics
@@ -684,7 +681,57 @@ impl EncryptedKeyStorageManager {
             ))
         })?;
         cache.clear();
+        drop(cache);
+        if let Ok(mut tag) = self.cache_password_tag.write() {
+            *tag = None;
+        }
 
+        Ok(())
+    }
+
+    /// Keyed tag of a password (never stored on disk, key is random per manager)
+    fn password_tag(&self, password: &SecureString) -> Result<[u8; 32]> {
+        let password_str = password.as_str().map_err(|e| {
+            P2PError::Security(crate::error::SecurityError::DecryptionFailed(
+                format!("Invalid password encoding: {e}").into(),
+            ))
+        })?;
+        Ok(*blake3::keyed_hash(&self.cache_tag_key, password_str.as_bytes()).as_bytes())
+    }
+
+    /// Whether `password` is the one the cached entries were decrypted with
+    fn cache_password_matches(&self, password: &SecureString) -> Result<bool> {
+        let presented = self.password_tag(password)?;
+        let tag = self.cache_password_tag.read().map_err(|_| {
+            P2PError::Storage(StorageError::LockPoisoned(
+                "read lock failed".to_string().into(),
+            ))
+        })?;
+        Ok(match tag.as_ref() {
+            Some(t) => blake3::Hash::from(*t) == blake3::Hash::from(presented),
+            None => false,
+        })
+    }
+
+    /// Cache a seed that was just stored or decrypted under `password`
+    fn cache_insert(&self, seed_id: &str, seed_bytes: &[u8], password: &SecureString) -> Result<()> {
+        let presented = self.password_tag(password)?;
+        let mut cache = self.key_cache.write().map_err(|_| {
+            P2PError::Storage(StorageError::LockPoisoned(
+                "write lock failed".to_string().into(),
+            ))
+        })?;
+        let mut tag = self.cache_password_tag.write().map_err(|_| {
+            P2PError::Storage(StorageError::LockPoisoned(
+                "write lock failed".to_string().into(),
+            ))
+        })?;
+        if tag.as_ref() != Some(&presented) {
+            // entries decrypted under another password must not outlive it
+            cache.clear();
+            *tag = Some(presented);
+        }
+        cache.insert(seed_id.to_string(), SecureMemory::from_slice(seed_bytes)?);
         Ok(())
     }
 
